@@ -60,6 +60,9 @@ func (e *Engine) verifyLemma(prop string, l *Lemma) (obls []*Obligation, errs st
 	fc.entry = st
 	env := &Env{fc: fc, st: st, old: st, pkg: pkg, names: map[string]Val{}, bound: map[string]Val{}}
 	n := l.Expr
+	if l.Induct != "" {
+		return e.verifyInductive(prop, l, fc, st, env, fi)
+	}
 	// skolemise leading universal quantifiers
 	for n.Op == "forall" {
 		for _, b := range n.Binders {
@@ -77,4 +80,74 @@ func (e *Engine) verifyLemma(prop string, l *Lemma) (obls []*Obligation, errs st
 	o := &Obligation{Name: fmt.Sprintf("%s/lemma/%s", prop, l.Name), Kind: "lemma", Assumes: append([]string(nil), st.pc...), Goal: goal, Clause: "lemma " + l.Name + ": " + l.Src, Func: fi.Key, ObsVars: fc.paramObs}
 	o.Script = fc.script(o)
 	return []*Obligation{o}, ""
+}
+
+// verifyInductive proves  forall xs, k :: P(xs, k)  for all k >= 0 by induction on the Int binder k:
+//   base:  P(xs, 0)                              for arbitrary xs
+//   step:  (forall xs :: P(xs, k)) ==> P(xs', k+1) for arbitrary k >= 0 and xs'
+// (the other binders stay universally quantified in the induction hypothesis).
+func (e *Engine) verifyInductive(prop string, l *Lemma, fc *FCtx, st *State, env *Env, fi *FuncInfo) (obls []*Obligation, errs string) {
+	n := l.Expr
+	if n.Op != "forall" {
+		return nil, "inductive lemma must be a universally quantified formula"
+	}
+	var others []Binder
+	found := false
+	for _, b := range n.Binders {
+		if b.Name == l.Induct {
+			found = true
+			if b.Type != "" && b.Type != "Int" && b.Type != "int" {
+				return nil, "induction variable must be an Int"
+			}
+			continue
+		}
+		others = append(others, b)
+	}
+	if !found {
+		return nil, "induction variable " + l.Induct + " is not bound by the leading quantifier"
+	}
+	body := n.Args[0]
+	skolem := func(tag string) {
+		for _, b := range others {
+			s, t := fc.resolveSpecType(b.Type, env.pkg)
+			v := Val{T: fc.U.Const("sk"+tag+"_"+sanitize(b.Name), s), S: s, GoT: t}
+			env.bound[b.Name] = v
+			if t != nil {
+				st.assume(fc.U.WF(v))
+			}
+		}
+	}
+	// base case
+	skolem("b")
+	env.bound[l.Induct] = Val{T: "0", S: SInt}
+	goal := fc.specBool(body, env)
+	base := &Obligation{Name: fmt.Sprintf("%s/lemma/%s/base", prop, l.Name), Kind: "lemma", Assumes: append([]string(nil), st.pc...), Goal: goal, Clause: "lemma " + l.Name + " (base case " + l.Induct + " = 0): " + l.Src, Func: fi.Key}
+	base.Script = fc.script(base)
+	// step
+	st2 := &State{vars: st.vars, ghost: st.ghost}
+	env2 := &Env{fc: fc, st: st2, old: st2, pkg: env.pkg, names: map[string]Val{}, bound: map[string]Val{}}
+	k := fc.U.Const("sk_"+sanitize(l.Induct), SInt)
+	st2.assume(fmt.Sprintf("(>= %s 0)", k))
+	// induction hypothesis: forall others :: P(others, k)
+	env2.bound[l.Induct] = Val{T: k, S: SInt}
+	var ih string
+	if len(others) > 0 {
+		ih = fc.specBool(&SNode{Op: "forall", Binders: others, Args: []*SNode{body}}, env2)
+	} else {
+		ih = fc.specBool(body, env2)
+	}
+	st2.assume(ih)
+	for _, b := range others {
+		s, t := fc.resolveSpecType(b.Type, env.pkg)
+		v := Val{T: fc.U.Const("sks_"+sanitize(b.Name), s), S: s, GoT: t}
+		env2.bound[b.Name] = v
+		if t != nil {
+			st2.assume(fc.U.WF(v))
+		}
+	}
+	env2.bound[l.Induct] = Val{T: fmt.Sprintf("(+ %s 1)", k), S: SInt}
+	goal2 := fc.specBool(body, env2)
+	step := &Obligation{Name: fmt.Sprintf("%s/lemma/%s/step", prop, l.Name), Kind: "lemma", Assumes: append([]string(nil), st2.pc...), Goal: goal2, Clause: "lemma " + l.Name + " (induction step " + l.Induct + " -> " + l.Induct + "+1): " + l.Src, Func: fi.Key}
+	step.Script = fc.script(step)
+	return []*Obligation{base, step}, ""
 }
